@@ -95,15 +95,18 @@ func (u *stepUntrusted) verify(sn *stepNode) {
 	me := wire.NewNetAddressIPPort([]byte{127, 0, 0, 1}, 8333, 0)
 	u.deliver(sn, wire.NewMsgVersion(me, me, 9, int32(sn.peer.best.Height)))
 	u.deliver(sn, wire.NewMsgVerAck())
+	// an honest peer on the same chain answers the node's getheaders (locator a few blocks below the
+	// node's tip) with the headers the node already has at the top of its chain
 	hm := wire.NewMsgHeaders()
-	path := sn.peer.best.Path()
-	from := len(path) - 5
+	tip := sn.node.blocks.LastHeight()
+	from := tip - 4
 	if from < 0 {
 		from = 0
 	}
-	for _, b := range path[from:] {
-		h := b.Header
-		_ = hm.AddBlockHeader(&h)
+	for h := from; h <= tip; h++ {
+		if hd, err := sn.node.blocks.Header(sn.ctx, h); err == nil {
+			_ = hm.AddBlockHeader(hd)
+		}
 	}
 	u.deliver(sn, hm)
 }
